@@ -11,7 +11,6 @@ namespace Pegtl
 structure RawClosedX (Q : List Ev → Prop) : Prop where
   nil : Q []
   app : ∀ {a b}, Q a → Q b → Q (a ++ b)
-  raise : ∀ i c, Q [Ev.raise i c]
   scope : ∀ {l} (d : Nat) (o : List Ev), (o = [] ∨ ∃ c k, o = [Ev.ssucc d c k]) → Q l → Q (Ev.sctor d :: l ++ o ++ [Ev.sdtor d])
 
 /-- The calls of rules in `S` made with apply mode `a` and environment `env` have traces satisfying `Q`. -/
@@ -253,7 +252,8 @@ theorem rematchAll_rawX (a : AMode) (env : Env) (S : List Nat) (hrec : QRecX Q r
     apply mode, calls with actions disabled (`at`, `not_at`, `disable`), and — only for `enable` —
     calls with actions enabled. -/
 theorem body_rawX (cx : Ctx) (k : Nat) (kind : Kind) (a : AMode) (m : RMode) (env : Env)
-    (hrec : QRecX Q rec (kind.childMode a) (kind.childEnv env) kind.calls) (st : St) (r : Ret)
+    (hrec : QRecX Q rec (kind.childMode a) (kind.childEnv env) kind.calls)
+    (hraise : ∀ j, (kind = .must j ∨ kind = .raise j) → ∀ c, Q [Ev.raise j c]) (st : St) (r : Ret)
     (h : body cx rec k kind a m env st = some r) : Q r.raw := by
   cases kind with
   | atom atm => simp only [body, Option.some.injEq] at h; subst h; exact hQ.nil
@@ -389,7 +389,7 @@ theorem body_rawX (cx : Ctx) (k : Nat) (kind : Kind) (a : AMode) (m : RMode) (en
       have q1 := hrec _ (by simp [Kind.calls]) _ _ _ h1
       split at h
       · simp only [Option.some.injEq] at h; subst h
-        exact hQ.app q1 (hQ.raise _ _)
+        exact hQ.app q1 (hraise _ (Or.inl rfl) _)
       · simp only [Option.some.injEq] at h; subst h; exact q1
   | ifMust dflt cond mn =>
     simp only [body] at h
@@ -408,7 +408,7 @@ theorem body_rawX (cx : Ctx) (k : Nat) (kind : Kind) (a : AMode) (m : RMode) (en
       · simp only [Option.some.injEq] at h; subst h; exact q1
   | raise t =>
     simp only [body, Option.some.injEq] at h; subst h
-    exact hQ.raise _ _
+    exact hraise _ (Or.inr rfl) _
   | tryCatchReturnFalse ex c =>
     simp only [body, Option.map_eq_some_iff] at h
     obtain ⟨r0, h0, rfl⟩ := h
